@@ -19,6 +19,7 @@ from ..rules import call_sites
 from ..mutate import mutate, remove_stmts, replace_stmt, replace_expr, parse_stmt, parse_expr
 from ..model import AnalysisError
 from ..x_scope import own_nodes
+from ..x_flow import check_default_only_for_none, check_exact, param_value_flow, DEFAULT
 
 TECHNIQUE = "table extraction + exception-escape lint on the dispatch parsers + guard-dominance / path-sensitive exploration of the command-line and config paths"
 EXPLANATION = (
@@ -200,7 +201,7 @@ def rule_command_line(ck):
     fi = ck.func(F, "OptionParser.parse_command_line")
     cfg = fi.cfg
     # name, equals, value = arg.partition("=")
-    parts = [n for n in own_nodes(fi.node) if isinstance(n, ast.Assign) and isinstance(n.value, ast.Call) and q.call_attr(n.value) == "partition" and n.value.args and q.is_const(n.value.args[0], "=")
+    parts = [n for n in own_nodes(fi.node) if isinstance(n, ast.Assign) and isinstance(n.value, ast.Call) and q.call_attr(n.value) in ("partition", "rpartition") and n.value.args and q.is_const(n.value.args[0], "=")
              and isinstance(n.targets[0], ast.Tuple) and len(n.targets[0].elts) == 3 and all(isinstance(e, ast.Name) for e in n.targets[0].elts)]
     if len(parts) != 1:
         raise AnalysisError("parse_command_line: expected one `name, equals, value = arg.partition('=')`")
@@ -376,7 +377,175 @@ def rule_config(ck):
         ck.ob("C44.config-dispatch", fi, c, bool(defined), "config names are applied only when they are defined options", construct="defined-guard " + q.unparse(c))
 
 
+def _helper_resolver(ck, cls):
+    def res(name):
+        return ck.repo.func(F, cls + "." + name) if ck.repo.has_func(F, cls + "." + name) else None
+    return res
+
+
+def rule_value_exact(ck):
+    """Class 'normaliser / strip / lower applied to more than the part it is meant for': option values are byte-exact."""
+    fi = ck.func(F, "OptionParser.parse_command_line")
+    argsp = [p for p in fi.params() if p != "self"][0]
+    is_src = lambda e: isinstance(e, ast.Subscript) and q.dotted(e.value) == argsp and not isinstance(e.slice, ast.Slice)
+
+    def allowed_cl(st):
+        if st.op in ("unpack", "[]"):
+            return True
+        if st.op == ".partition" and st.detail == "'='":
+            return True
+        if st.op == ".split" and st.detail in ("'=', 1", "'=', maxsplit=1"):
+            return True
+        if st.op == ".lstrip" and st.detail == "'-'":
+            return True  # leading dashes of the whole argument: never part of a value (the name comes first)
+        if st.op in ("str()",):
+            return True
+        return False
+
+    n = 0
+    for node, c in call_sites(fi, ".parse"):
+        if c.args:
+            n += check_exact(ck, "C44.value-exact", fi, c.args[0], is_src, allowed_cl,
+                             "the text handed to option.parse is the argument's part after '=' unchanged (no normalising, stripping or case folding of values)",
+                             resolve_helper=_helper_resolver(ck, "OptionParser"), node=c)
+    ck.floor("C44.value-exact", n, 1, "value derivations on the command line")
+    # _Option.parse: the pieces handed to the type parser are cut out of the text, not rewritten
+    parse = ck.func(F, "_Option.parse")
+    prm = [p for p in parse.params() if p != "self"][0]
+    is_src2 = lambda e: isinstance(e, ast.Name) and e.id == prm
+    sel = None
+    for nn in own_nodes(parse.node):
+        if isinstance(nn, (ast.Assign, ast.AnnAssign)) and isinstance(nn.value, ast.Call) and isinstance(nn.value.func, ast.Attribute) and nn.value.func.attr == "get" and isinstance(nn.value.func.value, ast.Dict):
+            sel = [p for p in q.assigned_paths(nn)][0]
+
+    def allowed_parse(st):
+        if st.op in ("unpack", "[]"):
+            return True
+        if st.op == ".split" and st.detail == "','":
+            return True
+        if st.op in (".partition", ".split") and st.detail.startswith("':'"):
+            return True
+        return False
+
+    m = 0
+    for c in q.calls(parse.node):
+        if sel and q.dotted(c.func) == sel and len(c.args) == 1:
+            # derivation stops at the parameter itself (a Name without local definitions)
+            m += check_exact(ck, "C44.value-exact", parse, c.args[0], lambda e: isinstance(e, ast.Name) and e.id == prm, allowed_parse,
+                             "the type parser sees the given text, or a comma/colon-separated piece of it, unchanged", resolve_helper=_helper_resolver(ck, "_Option"), node=c)
+    ck.floor("C44.value-exact", m, 3, "parser applications in _Option.parse")
+
+
+def rule_whole_text(ck):
+    """The timedelta parser consumes the whole text with anchored matches; the int-range syntax is applied to integral
+    options only; the command-line scan starts after the program name."""
+    td = ck.func(F, "_Option._parse_timedelta")
+    prm = [p for p in td.params() if p != "self"][0]
+    ms = [c for c in q.calls(td.node) if isinstance(c.func, ast.Attribute) and c.func.attr in ("match", "search", "fullmatch", "finditer", "findall") and "PATTERN" in (q.dotted(c.func.value) or "")]
+    if len(ms) != 1:
+        raise AnalysisError("_parse_timedelta: expected one application of the timedelta pattern")
+    m = ms[0]
+    if m.func.attr == "fullmatch" and len(m.args) == 1:
+        ck.ob("C44.whole-text", td, m, q.dotted(m.args[0]) == prm, "the whole text must match")
+    else:
+        pos = q.dotted(m.args[1]) if len(m.args) > 1 else None
+        ck.ob("C44.whole-text", td, m, m.func.attr == "match" and q.dotted(m.args[0]) == prm and pos is not None,
+              "each component is matched *at* the current position (match, not search): garbage between or before components is not skipped")
+        if pos is not None:
+            loops = [n for n in own_nodes(td.node) if isinstance(n, ast.While) and pos in q.names_in(n.test)]
+            if len(loops) != 1:
+                raise AnalysisError("_parse_timedelta: expected one loop over the scan position")
+            lp = loops[0]
+            try:
+                ts = q.truth_set(lp.test, pos, range(0, 6), {prm: "abcd"})
+            except q.NotFoldable as e:
+                raise AnalysisError("_parse_timedelta loop test not foldable: %s" % e)
+            ck.ob("C44.whole-text", td, lp.test, ts == {0, 1, 2, 3}, "the scan continues until the position reaches the end of the text (true-set for a 4-character text: %s)" % sorted(ts))
+            mname = None
+            pm = q.parent_map(td.node)
+            st = q.enclosing_stmt(pm, m)
+            if isinstance(st, ast.Assign) and isinstance(st.targets[0], ast.Name):
+                mname = st.targets[0].id
+            adv = [n for n in own_nodes(lp) if isinstance(n, ast.Assign) and pos in q.assigned_paths(n)]
+            ck.ob("C44.whole-text", td, adv[0] if adv else lp, len(adv) == 1 and mname is not None and q.unparse(adv[0].value) == "%s.end()" % mname, "the next match starts exactly where the previous one ended")
+            # a failed match rejects
+            facts = must_facts(td.cfg)
+            for node in td.cfg.stmt_nodes(lambda n: n.kind == "stmt" and isinstance(n.ast, ast.Raise) and n.ast.exc is not None):
+                pass
+            fails = [n for n in td.cfg.stmt_nodes(lambda n: n.kind == "test" and mname is not None and canon_fact(n.ast, True)[0] in (mname, "%s is None" % mname))]
+            ok_fail = False
+            for tn in fails:
+                t, pol = canon_fact(tn.ast, True)
+                fail_edge = "false" if t == mname else "true"
+                tg = [td.cfg.nodes[sid] for sid, kind in td.cfg.succ[tn.id] if kind == fail_edge]
+                ok_fail = ok_fail or (len(tg) == 1 and tg[0].kind == "stmt" and isinstance(tg[0].ast, ast.Raise))
+            ck.ob("C44.whole-text", td, m, ok_fail, "a position where no component matches raises (no break / skip)", construct="no-match-raises")
+    # unknown units are not silently read as some default unit
+    for c in q.calls(td.node):
+        if isinstance(c.func, ast.Attribute) and c.func.attr == "get" and "ABBREV" in (q.dotted(c.func.value) or "") and len(c.args) == 2:
+            ck.ob("C44.whole-text", td, c, q.unparse(c.args[0]) == q.unparse(c.args[1]), "an unknown unit abbreviation stays unknown (and is then rejected by timedelta), it is not mapped to a default unit")
+    # every datetime format is tried: a mismatch of one format only moves on to the next
+    dt = ck.func(F, "_Option._parse_datetime")
+    pmd = q.parent_map(dt.node)
+    sps = [c for c in q.calls(dt.node) if q.call_attr(c) == "strptime"]
+    ck.floor("C44.whole-text", len(sps), 1, "strptime calls")
+    for c in sps:
+        h = q.protected_by(pmd, c, "ValueError")
+        moves_on = h is not None and not any(isinstance(x, (ast.Raise, ast.Return, ast.Break)) for st_ in h.body for x in q.walk_local(st_))
+        in_loop = any(isinstance(a, ast.For) and "FORMATS" in q.unparse(a.iter) for a in q.ancestors(pmd, c))
+        ck.ob("C44.whole-text", dt, c, moves_on and in_loop, "a format that does not match is skipped (ValueError handled without leaving the loop over all supported formats)")
+    # int ranges only for integral option types
+    parse = ck.func(F, "_Option.parse")
+    facts = must_facts(parse.cfg)
+    k = 0
+    for node, c in parse.cfg.find(lambda x: isinstance(x, ast.Call) and isinstance(x.func, ast.Attribute) and x.func.attr in ("partition", "split") and x.args and q.is_const(x.args[0], ":")):
+        k += 1
+        ok = any(pol and t.startswith("issubclass(self.type") and "Integral" in t or pol and t in ("self.type is int", "self.type == int") for t, pol in facts[node.id])
+        ck.ob("C44.whole-text", parse, c, ok, "the lo:hi range syntax is applied only to integral options (a ':' in a str/datetime value is data)")
+    ck.floor("C44.whole-text", k, 1, "range splits in _Option.parse")
+    # command-line scan starts at index 1
+    fi = ck.func(F, "OptionParser.parse_command_line")
+    argsp = [p for p in fi.params() if p != "self"][0]
+    fors = [n for n in own_nodes(fi.node) if isinstance(n, ast.For) and argsp in q.names_in(n.iter)]
+    if len(fors) != 1:
+        raise AnalysisError("parse_command_line: expected one loop over the arguments")
+    it = fors[0].iter
+    try:
+        v = q.fold(it, {argsp: ("prog", "--a=1", "--b=2")})
+        seq = list(v)
+    except Exception as e:
+        raise AnalysisError("parse_command_line: loop range %s not foldable (%s)" % (q.unparse(it), e))
+    ck.ob("C44.whole-text", fi, it, seq in ([1, 2], ["--a=1", "--b=2"]), "the scan covers every argument after the program name (for a 3-element argv: %s)" % seq)
+
+
+def rule_defaults(ck):
+    """Class 'truthiness test where an empty/zero value is legal'."""
+    fi = ck.func(F, "OptionParser.parse_command_line")
+    argsp = [p for p in fi.params() if p != "self"][0]
+    is_loop = lambda n: n.kind == "for" and argsp in q.names_in(n.ast.iter)
+    k = check_default_only_for_none(ck, "C44.defaults", fi, argsp, [[], ["prog"], ["prog", "--a=b"]], is_loop, "explicit argument list (an empty list is a legal command line and must not fall back to sys.argv)")
+    init = ck.func(F, "_Option.__init__")
+    is_store = lambda n: n.kind == "stmt" and isinstance(n.ast, (ast.Assign, ast.AnnAssign)) and "self.default" in q.assigned_paths(n.ast)
+    for mult in (False, True):
+        k += check_default_only_for_none(ck, "C44.defaults", init, "default", [0, "", 5], is_store, "option default (falsy defaults are real defaults)", other_env={"multiple": mult})
+    # define(): the type is inferred from a falsy default just as from any other (0 -> int, not str)
+    d = ck.func(F, "OptionParser.define")
+    is_ctor = lambda n: n.kind == "stmt" and any(q.is_call(c, "_Option") for c in q.calls(n.ast))
+    for dv in (0, False, 0.0, "", 7):
+        flow = param_value_flow(d, "type", [None], is_ctor, other_env={"default": dv, "multiple": False, "str": "<str>"})
+        got = flow[None]
+        if not got:
+            raise AnalysisError("OptionParser.define: the _Option(...) construction is not reached in the value flow")
+        k += 1
+        ck.ob("C44.defaults", d, d.node, got == {DEFAULT}, "define(default=%r) without type infers the type from the default (not str); type at construction: %s" % (dv, sorted(map(repr, got))),
+              construct="type inferred for default=%r" % (dv,))
+    ck.floor("C44.defaults", k, 10, "default/legal-value propagations")
+
+
 def run(ck):
+    ck.rule("C44.whole-text", "timedelta text is consumed completely by anchored matches; lo:hi ranges only for integral options; the command-line scan starts after argv[0] and covers every argument")
+    ck.rule("C44.value-exact", "option values reach the type parser byte-exact: only partition/split/slicing between the argument and the parser, no normaliser/strip/lower")
+    ck.rule("C44.defaults", "defaults replace only None: an explicit empty argument list, falsy option defaults and falsy defaults used for type inference are honoured")
     ck.rule("C44.dispatch", "_Option.parse selects the parser by self.type from a table that has entries for bool, datetime and timedelta and falls back to the type's constructor")
     ck.rule("C44.rejecting-path", "every non-string parser of the dispatch table has an effective rejecting path (raise / failing lookup not swallowed)")
     ck.rule("C44.no-passthrough", "no non-string parser returns its raw input")
@@ -391,6 +560,9 @@ def run(ck):
     rule_stores(ck, parse, sel)
     rule_default(ck)
     rule_command_line(ck)
+    rule_value_exact(ck)
+    rule_whole_text(ck)
+    rule_defaults(ck)
     rule_set(ck)
     rule_config(ck)
 
@@ -431,7 +603,32 @@ def _drop_item_loop(root):
     return False
 
 
+def _normalize_whole(root):
+    for n in ast.walk(root):
+        body = getattr(n, "body", None)
+        if isinstance(body, list):
+            for i, st in enumerate(body):
+                if isinstance(st, ast.Assign) and _src(st) == "arg = args[i].lstrip('-')":
+                    body[i] = parse_stmt("arg = self._normalize_name(args[i].lstrip('-'))")
+                    body[:] = [x for x in body if _src(x) != "name = self._normalize_name(name)"]
+                    return True
+    return False
+
+
 MUTANTS = [
+    ("seeded C44-adv1: name normaliser applied to the whole name=value argument", _m("OptionParser.parse_command_line", _normalize_whole), "C44.value-exact"),
+    ("command-line values stripped of surrounding whitespace", _m("OptionParser.parse_command_line", replace_expr(lambda n: isinstance(n, ast.Call) and _src(n) == "option.parse(value)", lambda n: parse_expr("option.parse(value.strip())"))), "C44.value-exact"),
+    ("multiple: parts lower-cased before parsing", _m("_Option.parse", replace_expr(lambda n: isinstance(n, ast.Call) and _src(n) == "value.split(',')", lambda n: parse_expr("value.lower().split(',')"))), "C44.value-exact"),
+    ("explicit empty argument list falls back to sys.argv", _m("OptionParser.parse_command_line", replace_expr(lambda n: isinstance(n, ast.Compare) and _src(n) == "args is None", lambda n: parse_expr("not args"))), "C44.defaults"),
+    ("falsy option default replaced for multiple options", _m("_Option.__init__", replace_expr(lambda n: isinstance(n, ast.Compare) and _src(n) == "default is None", lambda n: parse_expr("not default"))), "C44.defaults"),
+    ("type inferred only from truthy defaults", _m("OptionParser.define", replace_expr(lambda n: isinstance(n, ast.Compare) and _src(n) == "default is not None", lambda n: ast.Name(id="default", ctx=ast.Load()))), "C44.defaults"),
+    ("unknown timedelta units read as seconds", _m("_Option._parse_timedelta", replace_expr(lambda n: isinstance(n, ast.Call) and _src(n) == "self._TIMEDELTA_ABBREV_DICT.get(units, units)", lambda n: parse_expr("self._TIMEDELTA_ABBREV_DICT.get(units, 'seconds')"))), "C44.whole-text"),
+    ("datetime parsing gives up after the first format", _m("_Option._parse_datetime", replace_expr(lambda n: isinstance(n, ast.ExceptHandler), lambda n: ast.ExceptHandler(type=n.type, name=None, body=[ast.Break()]))), "C44.whole-text"),
+    ("timedelta components found with search (garbage skipped)", _m("_Option._parse_timedelta", replace_expr(lambda n: isinstance(n, ast.Attribute) and n.attr == "match", lambda n: ast.Attribute(value=n.value, attr="search", ctx=ast.Load()))), "C44.whole-text"),
+    ("timedelta scan stops one character early", _m("_Option._parse_timedelta", replace_expr(lambda n: isinstance(n, ast.Compare) and _src(n) == "start < len(value)", lambda n: parse_expr("start < len(value) - 1"))), "C44.whole-text"),
+    ("range syntax applied to every multiple option", _m("_Option.parse", replace_expr(lambda n: isinstance(n, ast.Call) and _src(n).startswith("issubclass(self.type"), lambda n: parse_expr("':' in part"))), "C44.whole-text"),
+    ("command-line scan skips the first option", _m("OptionParser.parse_command_line", replace_expr(lambda n: isinstance(n, ast.Call) and _src(n) == "range(1, len(args))", lambda n: parse_expr("range(2, len(args))"))), "C44.whole-text"),
+    ("value split at the last '='", _m("OptionParser.parse_command_line", replace_expr(lambda n: isinstance(n, ast.Attribute) and n.attr == "partition", lambda n: ast.Attribute(value=n.value, attr="rpartition", ctx=ast.Load()))), "C44.value-exact"),
     ("unknown command-line option silently ignored", _m("OptionParser.parse_command_line", _ignore_unknown), "C44.unknown-option"),
     ("datetime parser returns its input when no format matches", _m("_Option._parse_datetime", replace_stmt(lambda st: isinstance(st, ast.Raise), lambda st: [parse_stmt("return value")])), ("C44.rejecting-path", "C44.no-passthrough")),
     ("timedelta parser accepts a valid prefix and ignores trailing garbage", _m("_Option._parse_timedelta", replace_stmt(lambda st: isinstance(st, ast.Raise) and st.exc is not None, lambda st: [ast.Break()])), "C44.rejecting-path"),
